@@ -111,3 +111,8 @@ Record site := mk_site {
     is it consumed on every call ([f_always]) / only under some condition ([f_cond])? *)
 Record flow := mk_flow {
   f_fun : string; f_param : string; f_always : bool; f_cond : bool }.
+
+(** State created by the wall-solving entry points of the manager (data emitted by
+    tools/gen_units.py): is the attribute rebuilt by a new set-up ([c_rebuilt]), is it read by
+    the solving entry points ([c_read])? *)
+Record cached := mk_cached { c_name : string; c_rebuilt : bool; c_read : bool }.
